@@ -117,6 +117,7 @@ type Exec struct {
 	prefers     []*Term
 	pcKind      []byte
 	randStreams [][]*Term
+	absMemo     map[int]*Term
 }
 
 type Observation struct {
@@ -190,7 +191,14 @@ func (e *Exec) feasible(c *Term) bool {
 			return false
 		}
 	}
-	r := e.sol.Feasible(e.tb, append(e.slicePC(c), c), e.cfg.FeasTimeout)
+	as := append(e.slicePC(c), c)
+	// feasibility is decided on an abstraction in which symbolic-by-symbolic division /
+	// multiplication are uninterpreted: unsat is exact, sat may keep an infeasible path, on which
+	// every assertion is still checked with the exact terms (so it can only cost time)
+	for i, a := range as {
+		as[i] = e.tb.Abstract(a, e.absMemo)
+	}
+	r := e.sol.Feasible(e.tb, as, e.cfg.FeasTimeout)
 	if r.Status == "unknown" {
 		e.notes = append(e.notes, "feasibility unknown (kept): "+firstN(r.Note, 80))
 	}
@@ -331,7 +339,6 @@ func (e *Exec) concretize(t *Term, lo, hi int, what string) int {
 	e.addPC(e.tb.Eq(t, e.tb.Const(t.w, uint64(vals[0]))))
 	return int(vals[0])
 }
-
 
 // ---------- trail (undo log) ----------
 
